@@ -25,7 +25,7 @@ func init() {
 		Explanation: "Decides: serialisation of publish, validation/narrowness gates dominating the publish, compare-and-swap shape of the conditional apply, immutability of published " +
 			"snapshots (nobody mutates a published config in place, so every reader sees one complete accepted candidate), API precondition. " +
 			"Does not decide: that JSON/SHA-256 equality equals semantic equality of configurations, nor what Validate accepts (C37).",
-		Fixtures: []string{"lockset", "guardcut", "snapshot"},
+		Fixtures: []string{"lockset", "guardcut", "provenance"},
 		Variants: []Variant{
 			{Name: "publish-before-validate", File: pkgGate + "/gate.go",
 				Old:    "\tif _, errs := candidate.Validate(); len(errs) != 0 {\n\t\treturn LiveConfigResult{Code: \"invalid\"}\n\t}\n\tif !onlyLiveLiteRoutesChanged",
